@@ -322,3 +322,33 @@ def held_guard_violations(body, lock_call, uses, guard_ty=r"MutexGuard|RwLock(Re
                 bad.append(("guard-dropped-before-use", "the lock guard can be dropped before a protected operation", None))
                 break
     return bad
+
+
+def deep_locals(body, op, depth=14):
+    """locals an operand derives from, following moves/refs and the *first argument* of any call (iterator chains: x.iter().map(..).collect())"""
+    out = set()
+    pl = op.get("m") or op.get("c") if isinstance(op, dict) else op
+    if pl is None:
+        return out
+    stack = [(pl[0], depth)]
+    while stack:
+        l, d = stack.pop()
+        if l in out or d <= 0:
+            continue
+        out.add(l)
+        for (bb, j, dpl, rv) in body.defs().get(l, []):
+            if j == -1:
+                if rv.get("args"):
+                    p2 = rv["args"][0].get("m") or rv["args"][0].get("c")
+                    if p2:
+                        stack.append((p2[0], d - 1))
+            else:
+                r = rv["r"]
+                p2 = None
+                if r in ("use", "cast"):
+                    p2 = rv["o"].get("m") or rv["o"].get("c")
+                elif r in ("ref", "cfd", "rawptr"):
+                    p2 = rv["p"]
+                if p2:
+                    stack.append((p2[0], d - 1))
+    return out
